@@ -81,7 +81,7 @@ def signature(e, tsig):
 
 
 def gen_cfg(k, nin, rot, div):
-    return ('SPECIFICATION Spec\nCONSTANTS Shard = %d\n NShards = %d\n NIn = %d\n Rot = %d\n Div = %d\nCONSTRAINT Emit\nCHECK_DEADLOCK FALSE\n'
+    return ('SPECIFICATION Spec\nCONSTANTS Shard = %d\n NShards = %d\n NIn = %d\n Rot = %d\n Div = %d\nCHECK_DEADLOCK FALSE\n'
             % (k, SHARDS, nin, rot, div))
 
 
